@@ -210,6 +210,20 @@ pub fn expected_walk(content: &Content) -> Vec<WalkKey> {
             }
         }
     }
+    per_record(out)
+}
+
+/// The statement is about the *records* a walk enumerates; how they are
+/// grouped into callback invocations (one RRset per call, one glue record per
+/// call, glue grouped into RRsets, ...) is incidental. Both the observed and
+/// the expected walk are therefore compared record by record.
+pub fn per_record(keys: Vec<WalkKey>) -> Vec<WalkKey> {
+    let mut out = vec![];
+    for (owner, rtype, ttl, data, at_cut) in keys {
+        for d in data {
+            out.push((owner.clone(), rtype, ttl, vec![d], at_cut));
+        }
+    }
     out.sort();
     out
 }
